@@ -1,5 +1,6 @@
 import StunVerif.Props.C11
 import StunVerif.Props.C11Parse
+import StunVerif.Props.SrcFnBuilder
 #print axioms StunVerif.C11.types_inv
 #print axioms StunVerif.C11.add_refused_iff
 #print axioms StunVerif.C11.sha1_refused_iff
@@ -9,3 +10,9 @@ import StunVerif.Props.C11Parse
 #print axioms StunVerif.C11.runOps_reach
 #print axioms StunVerif.C11.tail_shape
 #print axioms StunVerif.C11.queries_agree
+#print axioms StunVerif.SrcFnBuilder.src_hasAttribute
+#print axioms StunVerif.SrcFnBuilder.src_hasAnyAttribute
+#print axioms StunVerif.SrcFnBuilder.src_addRawAttribute
+#print axioms StunVerif.SrcFnBuilder.src_addAttribute
+#print axioms StunVerif.SrcFnBuilder.src_addFingerprint
+#print axioms StunVerif.SrcFnBuilder.model_addFingerprint_refused
